@@ -288,6 +288,19 @@ func c10Gen(r *Rng, n int) []string {
 			m = map[string]interface{}{k1: outer, "k0": "x"}
 			nestedPath = k1 + "." + k2 + "." + k3
 		}
+		shelf := false
+		if r.P(5) {
+			// the path ends in the key, the key holds a LIST, and the sub-keys select several of
+			// its members (and do not hold of the parent): one replacement - and one count - each
+			k := r.Pick(plainKeys)
+			var l []interface{}
+			for i := 0; i < 3+r.Intn(4); i++ {
+				l = append(l, map[string]interface{}{"lang": r.Pick([]string{"en", "en", "de"}), "n": float64(i)})
+			}
+			m = map[string]interface{}{"shelf": map[string]interface{}{k: l, "owner": "x"}, "k0": "y"}
+			nested, nestedPath = true, "shelf."+k
+			shelf = true
+		}
 		zeros := r.P(4)
 		if zeros {
 			// zero and negative zero are different values (sign bit, "-0" in JSON)
@@ -317,6 +330,9 @@ func c10Gen(r *Rng, n int) []string {
 			var subs []string
 			if r.P(30) {
 				subs = genSubkeys(r, m, sep)
+			}
+			if shelf && r.P(70) {
+				subs = []string{"lang" + sep + "en"}
 			}
 			var nv string
 			var pfs []string
